@@ -126,6 +126,13 @@ TEMPLATES_THOROUGH = [
 ]
 
 
+# Stress sequences for totality ("in bounded time"): long repetitive argument lists on which a backtracking or re-scanning scanner needs
+# super-linear work.  Fixed token trees, symbolic spacing; the per-path step budget and a native 10 s limit decide.
+STRESS = [" ".join(["a <"] * 28), " ".join(["<"] * 40), " ".join(["a |"] * 28), " ".join(["|"] * 40), " ".join([":: <"] * 16),
+          " ".join(["a :: < a ,"] * 8), " ".join(["< a s a <"] * 8), " ".join([">"] * 40), " ".join(["a ,"] * 24), " ".join(["a = a < a |"] * 8),
+          " ".join(["a <"] * 14 + ["a >"] * 14), " ".join(["| a <"] * 14)]
+
+
 def template_fixed(t):
     """-> (n, [(pos, kind, ch, keyword)] for the fixed token trees; `::` is two puncts, the first Joint)"""
     fixed, joints, pos = [], [], 0
@@ -185,10 +192,10 @@ def explore(tier, prop, passes=None, templates=None):
     res["passes"] = [{"name": nm, "alphabet": al["text"], "token_trees": "%d..=%d" % (lo, hi)} for nm, al, lo, hi in passes]
     jobs = [(nm, al, n, None) for nm, al, lo, hi in passes for n in range(lo, hi + 1)]
     if templates is None:
-        templates = (TEMPLATES + (TEMPLATES_THOROUGH if tier == "thorough" else [])) if prop == "C16" else []
+        templates = (TEMPLATES + (TEMPLATES_THOROUGH if tier == "thorough" else [])) if prop == "C16" else STRESS
     for t in templates:
         n, fixed = template_fixed(t)
-        jobs.append(("template `%s`" % t, FULL, n, fixed))
+        jobs.append(("template `%s`" % (t if len(t) < 60 else t[:40] + " ... (%d token trees)" % n), FULL if prop == "C16" else ANY, n, fixed))
     if templates:
         res["passes"].append({"name": "templates", "alphabet": FULL["text"], "templates": templates,
                               "meaning": "`?` = any one token tree of the alphabet; `a` identifier, `s` keyword `as`, `g` group `(a, a)`; all spacing symbolic"})
